@@ -69,7 +69,7 @@ class iCVIFuzzyART(FuzzyART):
         self.params[
             "validity"
         ] = validity  # Currently not used. Waiting for more algorithms.
-        self.offline = offline
+        self.params["offline"] = offline
         assert "validity" in self.params
         assert isinstance(self.params["validity"], int)
 
